@@ -79,6 +79,28 @@ pub fn judge(c: &Pair, st: &mut Stats) -> Verdict {
                 ));
             }
         }
+        // the text routes freeze at the same point (when x and x ++ t are both valid UTF-8)
+        if let (Ok(sx), Ok(sxt)) = (std::str::from_utf8(x), std::str::from_utf8(&xt)) {
+            let diff = |entry: &str, a: String, b: String| {
+                Err(Fail::new(format!("verdict-changes-after-closure:{}", entry), shape(x), entry, format!("the same result with {} more bytes: {}", t.len(), a), b))
+            };
+            if let (Ok(a), Ok(b)) = (imp::v1_str(sx), imp::v1_str(sxt)) {
+                if a != b {
+                    return diff("v1::try_from(&str)", format!("{:?}", a), format!("{:?}", b));
+                }
+            }
+            if let (Ok(a), Ok(b)) = (imp::v1_fromstr_header(sx), imp::v1_fromstr_header(sxt)) {
+                if a != b {
+                    return diff("parse::<v1::Header>", format!("{:?}", a), format!("{:?}", b));
+                }
+            }
+            if let (Ok(a), Ok(b)) = (imp::v1_fromstr_addr(sx), imp::v1_fromstr_addr(sxt)) {
+                if a != b {
+                    return diff("parse::<v1::Addresses>", format!("{:?}", a), format!("{:?}", b));
+                }
+            }
+            st.class("frozen-window-checked-text-routes");
+        }
         st.class("frozen-window-checked");
     }
     Ok(())
@@ -180,7 +202,17 @@ fn gen_case(t: &mut Tape) -> Pair {
             m
         }
     };
-    let tr = if t.coin() { gen::gen_trailer(t, false).0 } else { vec![] };
+    // trailers: half of them valid UTF-8 (so that the text routes see x ++ t too), some of those short and CRLF-terminated
+    let tr = match t.below(6) {
+        0 | 1 => vec![],
+        2 | 3 => gen::gen_trailer(t, true).0,
+        4 => {
+            let mut v = t.pick(&["QUIT", "", "x", "PROXY UNKNOWN", "GET / HTTP/1.1", "1", " "]).as_bytes().to_vec();
+            v.extend_from_slice(b"\r\n");
+            v
+        }
+        _ => gen::gen_trailer(t, false).0,
+    };
     Pair(x, tr)
 }
 
